@@ -153,11 +153,22 @@ def run(ctx, rep):
         c = ins[0]
         kv, vv = strip(sl.operand(pe, c.args[1])), strip(sl.operand(pe, c.args[2]))
         pathv = None
-        okk = kv[0] == 'call' and kv[1] == 'std::path::Path::file_name'
-        if okk:
+        okk = kv[0] == 'call' and kv[1] in ('std::path::Path::file_name', 'std::fs::DirEntry::file_name')
+        if okk and kv[1] == 'std::path::Path::file_name':
             pathv = strip(kv[2][0])
             src = _listed_from(pathv[2][0]) if pathv[0] == 'call' and pathv[1] == 'std::fs::DirEntry::path' else None
             okk = src is not None and L.comps(src, root) == ('env',)
+        elif okk:
+            # entry.file_name(): the name of the same directory entry whose path() is read
+            entry = kv[2][0]
+            src = _listed_from(entry)
+            okk = src is not None and L.comps(src, root) == ('env',)
+            pathv = ('call', 'std::fs::DirEntry::path', (entry,)) if okk else None
+            if okk:
+                # use the actual path value of that entry as it appears in the function (same call-site identity)
+                for c2 in pe.calls:
+                    if c2.name == 'std::fs::DirEntry::path' and strip(sl.operand(pe, c2.args[0])) == strip(entry):
+                        pathv = strip(sl._call_value(pe, c2, set(), 0))
         rep.check(okk, 'R4', 'key', c.where(), 'key = file name of an entry of <platform>/env', 'variable name is ' + vstr(kv)[:120])
         okv = vv[0] == 'call' and vv[1] == 'std::fs::read_to_string' and pathv is not None and strip(vv[2][0]) == pathv and sl.operand(pe, c.args[2])[0] == 'unwrap'
         rep.check(okv, 'R4', 'value', c.where(), 'value = read_to_string(same entry)?, unmodified', 'variable value is ' + vstr(vv)[:140])
